@@ -52,8 +52,8 @@ PROPS = {
                "Zap.C03_dvFieldNames", "Zap.C03_content_full", "Zap.C03_visit_built_full", "Zap.Props.Codec.content_roundtrip"],
               DV_FILES + STORED_FILES + ["ZapProofs/Props/C03Full.lean", "ZapProofs/CodecLemmasContent.lean"]),
     "C04": _p([{"gen": "C04"}, {"gen": "C04", "vectors": True, "seed_offset": 13}],
-              ["ZapProofs.Props.C04", "ZapProofs.Props.Codec", "ZapProofs.Props.C04Loaders"],
-              ["Zap.C04.open_recovers_init_args", "Zap.C04.footer_crc_is_crc_of_all_preceding_bytes", "Zap.C04.persistFooter_crc",
+              ["ZapProofs.Props.C04", "ZapProofs.Props.Codec", "ZapProofs.Props.C04Loaders", "ZapProofs.Props.ReadWindows"],
+              ["Zap.ReadWindows.windows_full_width", "Zap.ReadWindows.windows_recognised", "Zap.C04.open_recovers_init_args", "Zap.C04.footer_crc_is_crc_of_all_preceding_bytes", "Zap.C04.persistFooter_crc",
                "Zap.C04.mem_recovered", "Zap.C04.persist_eq_writeTo", "Zap.C04.persist_is_persistBytes",
                "Zap.C04.persistSegmentBase_calls_toWriter", "Zap.C04.toWriter_shape", "Zap.C04.persistFooter_shape",
                "Zap.Props.Codec.footer_roundtrip", "Zap.Props.Codec.footer_layout", "Zap.Props.Codec.footer_size",
@@ -77,8 +77,8 @@ PROPS = {
                "Zap.C07_reuse", "Zap.C07_reuse_spec", "Zap.C07_reuse_absent", "Zap.C07_reuse_source", "Zap.C07_flags_extracted",
                "Zap.C07_preserved_ok"],
               POST_FILES + ["ZapModel/Reuse.lean", "ZapProofs/ReuseLemmas.lean", "ZapProofs/Props/C07Reuse.lean"]),
-    "C08": _p([{"regress": "d10_empty_key_range.script"}, {"regress": "d1_stale_1hit.script"}, {"gen": "C08"}], ["ZapProofs.Props.C08", "ZapProofs.Props.C08Facts"],
-              ["Zap.C08_dict", "Zap.C08_stale_1hit_counterexample", "Zap.C08_merge_writes_wf",
+    "C08": _p([{"regress": "d10_empty_key_range.script"}, {"regress": "d1_stale_1hit.script"}, {"gen": "C08"}], ["ZapProofs.Props.C08", "ZapProofs.Props.C08Facts", "ZapProofs.Props.ReadWindows"],
+              ["Zap.ReadWindows.windows_full_width", "Zap.ReadWindows.windows_recognised", "Zap.C08_dict", "Zap.C08_stale_1hit_counterexample", "Zap.C08_merge_writes_wf",
                "Zap.C08Facts.sideCondition_holds", "Zap.C08Facts.read_clears_1hit", "Zap.C08Facts.count_reads_reinitialised"],
               MERGE_FILES + ["ZapProofs/Props/C08Facts.lean"]),
     "C10": _p([{"regress": "d9_empty_after_nonempty.script"}, {"gen": "C10"}, {"gen": "C10", "vectors": True, "seed_offset": 13},
@@ -119,8 +119,8 @@ PROPS = {
               THEORY_FILES + ["ZapProofs/Props/C20.lean"],
               partial="munmap / close(fd) are OS behaviour: observed through /proc, not modelled"),
     "C09": _p([{"regress": "d9_empty_after_nonempty.script"}, {"frozen": "default"}, {"frozen": "big"}, {"frozen": "vectors", "vectors": True}, {"gen": "C09"}, {"gen": "C09", "vectors": True, "seed_offset": 13}],
-              ["ZapProofs.Props.Codec", "ZapProofs.Props.C04", "ZapProofs.Props.C09Bytes"],
-              ["Zap.Props.C09Bytes." + t for t in (
+              ["ZapProofs.Props.Codec", "ZapProofs.Props.C04", "ZapProofs.Props.C09Bytes", "ZapProofs.Props.ReadWindows"],
+              ["Zap.ReadWindows.windows_full_width", "Zap.ReadWindows.windows_recognised"] + ["Zap.Props.C09Bytes." + t for t in (
                   "C09_postings_roundtrip", "C09_numLocsBytes", "C09_skipBytes", "C09_decLocs_block", "C09_empty_loc_stream",
                   "C09_postings_roundtrip_writeAt", "C09_postings_record", "C09_layout_simulates_postings",
                   "C09_postings_roundtrip_layout", "C09_postings_roundtrip_file", "C09_stored_roundtrip",
